@@ -14,7 +14,24 @@ Vocabulary
             'finished' (/finished/<inst>, data + mtime),
             'server' (/server-trace/<shard>/<server>,<ts>,...)
   universe  what was live when the archiving run started (the "existed
-            beforehand" of the statement)
+            beforehand" of the statement) plus, for app events, what other
+            actors published while the run was going on (server op log:
+            creates under /trace/<shard>/ after the start of the run)
+  moment of deletion
+            the world may move while the archiver runs (instances are
+            scheduled and finish, events are published, time passes between
+            and during the ZooKeeper calls of one pass).  "Still scheduled"
+            and "younger than the expiry" are therefore judged for every
+            event that is no longer live at the moment it went: the server op
+            log gives the order of every create / delete under /scheduled and
+            under /trace (=> was the instance in /scheduled when the delete
+            was applied); the engine notes the virtual time at which the
+            archiver issues each of its ZooKeeper calls (`note_call`), so
+            the time noted for the call that made the snapshot holding the
+            event (if this run made it), else for the call that deleted it,
+            is when the archiver acted on the event - an archiver that
+            checks the age of an event before it acts on it, however long
+            before, is never blamed (time only moves forward)
   exempt    app events deleted by the cron's two policy prunes
             (prune_trace_evictions / prune_trace_service_events): deliberate
             deletions that are not archiving
@@ -31,14 +48,17 @@ Clauses (first failing one is reported, deterministic order)
                                  by the same pass is judged by losslessness)
   prune-kept-wrong-snapshots     a prune deleted a snapshot outside `allowed`,
                                  or completed without deleting all of `allowed`
-  scheduled-instance-archived    event of an instance in /scheduled not live
-  young-event-archived           event younger than the expiry not live
+  scheduled-instance-archived    event deleted from /trace while its instance
+                                 was in /scheduled (at the moment of deletion)
+  young-event-archived           event deleted from /trace while younger than
+                                 the expiry (at the moment of deletion)
   young-finished-archived        finished record younger than the expiry gone
   event-lost / server-event-lost / finished-lost : not live, in no existing
                                  snapshot, not accounted
   event-not-retrievable-by-api / finished-not-listed-by-api : second view
 """
 
+import bisect
 import sqlite3
 import zlib
 
@@ -198,6 +218,66 @@ class ArchiveState:
         self.phases_done = 0
         self.outcome = None       # None while running, then 'complete',
         #                           'crash', 'died', 'raised'
+        # the world while the run is going on (scan(), note_call())
+        self.scan_pos = self.oplog_start
+        self.sched_now = set(self.scheduled)
+        self.published = {}       # path -> (inst, stamp, name), made meanwhile
+        self.deleted = {}         # path -> (oplog index, instance scheduled
+        #                           when the delete was applied)
+        self.snap_made = {}       # trace snapshot name -> oplog index
+        self.mark_idx = []        # oplog length / virtual time before every
+        self.mark_time = []       # ZooKeeper call of the archiver
+
+    def note_call(self, zk, now):
+        """The archiver issues a ZooKeeper call at time `now` (whatever the
+        call takes comes on top)."""
+        self.mark_idx.append(len(zk.oplog))
+        self.mark_time.append(now)
+
+    def scan(self, zk):
+        """Follow the server op log: who was in /scheduled when which event
+        was deleted, which events were published meanwhile."""
+        oplog = zk.oplog
+        sched = self.sched_now
+        start = self.universe['trace']
+        pre_sched = len(SCHEDULED) + 1
+        pre_hist = HIST['trace'] + '/'
+        for idx in range(self.scan_pos, len(oplog)):
+            entry = oplog[idx]
+            path = entry[3]
+            if path.startswith(pre_hist):
+                if entry[2] == 'create':
+                    self.snap_made.setdefault(path[len(pre_hist):], idx)
+            elif path.startswith(TRACE + '/'):
+                if path.count('/') != 3:
+                    continue
+                if entry[2] == 'create':
+                    self.deleted.pop(path, None)
+                    if path not in start:
+                        name = path[path.rfind('/') + 1:]
+                        inst, stamp = parse_event(name)
+                        self.published[path] = (inst, stamp, name)
+                elif entry[2] in ('delete', 'expire'):
+                    inst = parse_event(path[path.rfind('/') + 1:])[0]
+                    self.deleted[path] = (idx, inst in sched)
+            elif path.startswith(SCHEDULED + '/'):
+                inst = path[pre_sched:]
+                if '/' in inst:
+                    continue
+                if entry[2] == 'create':
+                    sched.add(inst)
+                elif entry[2] in ('delete', 'expire'):
+                    sched.discard(inst)
+        self.scan_pos = len(oplog)
+
+    def time_of(self, idx):
+        """Lower bound of the virtual time at which oplog entry `idx` was
+        applied (the time noted before the archiver's call that made it);
+        None if the archiver made no call before it."""
+        pos = bisect.bisect_right(self.mark_idx, idx) - 1
+        if pos < 0:
+            return None
+        return self.mark_time[pos]
 
     def max_count(self, kind):
         # the cron passes trace_history_max_count to the server-trace prune
@@ -320,34 +400,66 @@ def evaluate(st, zk, api, now):
                                  len(snaps))), stats
 
     # -- app trace events
+    st.scan(zk)
     live = live_events(zk, TRACE)
     t_ref = st.t_end.get('cleanup_trace', now)
     expiry = st.params['expiry_t']
-    for path in sorted(st.universe['trace']):
-        inst, stamp, name = st.universe['trace'][path]
+    universe = st.universe['trace']
+    if st.published:
+        universe = dict(universe)
+        universe.update(st.published)
+    stats['published_meanwhile'] = len(st.published)
+    stats['archived_published_meanwhile'] = 0
+    for path in sorted(universe):
+        inst, stamp, name = universe[path]
         if path in st.exempt:
             stats['exempt'] += 1
             continue
         is_live = path in live
         found = [(snap, row) for snap, row in
                  contents['trace'].get(path, ()) if row[4] == name]
-        if inst in st.scheduled:
-            if not is_live:
+        if is_live:
+            if inst in st.sched_now:
+                stats['kept_scheduled'] += 1
+            elif stamp is not None and stamp >= t_ref - expiry:
+                stats['kept_young'] += 1
+        else:
+            # judged at the moment the event was deleted from /trace
+            meanwhile = ' (published while the run was going on)' \
+                if path in st.published else ''
+            rec = st.deleted.get(path)
+            if rec is not None:
+                was_scheduled = rec[1]
+                t_del = st.time_of(rec[0])
+            else:
+                was_scheduled = inst in st.scheduled
+                t_del = None
+            if t_del is None:
+                t_del = t_ref
+            # archived prematurely: young when the snapshot that took it was
+            # made (if this run made it), at the latest when it was deleted
+            for snap, _row in found:
+                if snap in st.snap_made:
+                    t_snap = st.time_of(st.snap_made[snap])
+                    if t_snap is not None and t_snap < t_del:
+                        t_del = t_snap
+            if was_scheduled:
                 return _viol('C18:scheduled-instance-archived',
-                             '%s: instance %s is in /scheduled but the event '
-                             'is no longer live (snapshots holding it: %s)'
-                             % (path, inst, [s for s, _r in found])), stats
-            stats['kept_scheduled'] += 1
-        elif stamp is not None and stamp >= t_ref - expiry:
-            if not is_live:
+                             '%s%s: instance %s was in /scheduled when the '
+                             'event was deleted from /trace (about %r; in '
+                             '/scheduled when the run started: %s, now: %s; '
+                             'snapshots holding the event: %s)'
+                             % (path, meanwhile, inst, t_del,
+                                inst in st.scheduled, inst in st.sched_now,
+                                [s for s, _r in found])), stats
+            if stamp is not None and stamp >= t_del - expiry:
                 return _viol('C18:young-event-archived',
-                             '%s: timestamp %r, archive call ended at %r, '
-                             'expiry %r: %.6f s younger than the expiry, not '
-                             'live (snapshots holding it: %s)' % (
-                                 path, stamp, t_ref, expiry,
-                                 stamp - (t_ref - expiry),
+                             '%s%s: timestamp %r, archived / deleted from '
+                             '/trace at %r, expiry %r: %.6f s younger than '
+                             'the expiry then (snapshots holding it: %s)' % (
+                                 path, meanwhile, stamp, t_del, expiry,
+                                 stamp - (t_del - expiry),
                                  [s for s, _r in found])), stats
-            stats['kept_young'] += 1
         if is_live:
             if found:
                 stats['both_live_and_archived'] += 1
@@ -356,11 +468,16 @@ def evaluate(st, zk, api, now):
             if path in st.accounted['trace']:
                 continue
             return _viol('C18:event-lost:' + mode,
-                         '%s existed before the archiving run; now neither '
+                         '%s %s; now neither '
                          'live nor in any snapshot of %s (phase %s, %s)' % (
-                             path, HIST['trace'], st.phase,
+                             path, 'was published while the archiving run '
+                             'was going on' if path in st.published else
+                             'existed before the archiving run',
+                             HIST['trace'], st.phase,
                              st.outcome or 'running')), stats
         stats['archived'] += 1
+        if path in st.published:
+            stats['archived_published_meanwhile'] += 1
         snap = found[0][0]
         try:
             names = api.download('trace', snap, existing['trace'][snap], inst)
